@@ -414,6 +414,11 @@ def gen_C02(g, tier):
         b1, b2 = g.choice(ells + named), g.choice(ells + named); s_, j_ = g.rats(4), g.rats(8)
         chk = None if b2 in named else small_rel(1e-11, s_, (j_, 4))
         cs.append(Case('o.c02.transform2 %s %s %s %s' % (b1, frs(s_), frs(j_), b2), 'orc', 'same-matrix-across-basis-change', check=chk))
+    # a use, then N settings, then a use: N around the sizes at which a counter of settings would wrap
+    for N in ([255, 256, 257, 65535, 65536, 65537] if tier == 'quick' else [1, 2, 255, 256, 257, 511, 512, 65535, 65536, 65537, 131072, 196608, 1 << 20]):
+        b1, b2 = g.choice(named), g.choice(named)
+        if b1 == b2: b2 = [b for b in named if b != b1][0]
+        cs.append(Case('o.c02.manysettings %d %s %s %s %s' % (N, b1, frs(g.rats(4)), frs(g.rats(8)), b2), 'orc', 'many-settings-between-two-uses'))
     # the basis is process-wide: set on one thread, used on another (sequentially)
     for _ in range(6 if tier == 'quick' else 100):
         cs.append(Case('o.c02.thread %s %s %s %s' % (g.choice(named), frs(g.rats(4)), frs(g.rats(8)), g.choice(ells + named)), 'orc', 'basis-set-on-one-thread-used-on-another'))
